@@ -332,7 +332,8 @@ impl Repeat {
         self.count += 1;
         match self.repeater {
             Repeater::Finite(n) => {
-                self.repeater = Repeater::Finite(n - 1);
+                // Already done (or never meant to run at all): stay done.
+                self.repeater = Repeater::Finite(n.saturating_sub(1));
                 n > 1
             }
             Repeater::Infinite => true,
